@@ -248,7 +248,14 @@ func (c *Config) HTTPUpgrader() (ws.HTTPUpgrader, *Built) {
 		u.Header = httpHeader(c.Header)
 	}
 	if c.HasProtocol {
-		u.Protocol = func(p string) bool { return c.AcceptsProtocol(p) }
+		switch {
+		case c.ProtoHelper == ProtoFromSlice:
+			u.Protocol = ws.SelectFromSlice(append([]string(nil), c.Protocols...))
+		case c.ProtoHelper == ProtoEqual && len(c.Protocols) == 1:
+			u.Protocol = ws.SelectEqual(c.Protocols[0])
+		default:
+			u.Protocol = func(p string) bool { return c.AcceptsProtocol(p) }
+		}
 	}
 	switch c.ExtMode {
 	case ExtSelector:
